@@ -43,6 +43,7 @@ type pipeScenario struct {
 	Buffer      int
 	ConsLatPm   int // per-mille chance the consumer sleeps (fake time) before taking the next batch
 	ConsLatMs   int
+	ScanBuf     int // override of batchers.ReadAheadBufferSize for this run (0: the tree's constant)
 }
 
 func (sc *pipeScenario) describe() map[string]any {
@@ -58,7 +59,7 @@ func (sc *pipeScenario) describe() map[string]any {
 		ins = append(ins, fmt.Sprintf("%s: %d bytes, %d lines%s", in.Name, len(in.Data), n, f))
 	}
 	return map[string]any{"stdin": sc.Stdin, "inputs": ins, "lines": total, "matcher": []string{"none", "regex", "dissect"}[sc.MatcherKind], "pattern": sc.Pattern,
-		"extract": sc.Extract, "ignore": sc.Ignores, "batch": sc.Batch, "workers": sc.Workers, "readers": sc.Readers, "buffer": sc.Buffer}
+		"extract": sc.Extract, "ignore": sc.Ignores, "batch": sc.Batch, "workers": sc.Workers, "readers": sc.Readers, "buffer": sc.Buffer, "scanner_buffer": sc.ScanBuf}
 }
 
 var (
@@ -185,6 +186,11 @@ func genPipeScenario(rc *RunCtx, allowStdin bool, maxLinesPerInput int) *pipeSce
 		sc.ConsLatPm = []int{50, 300, 900}[t.W(3)]
 		sc.ConsLatMs = []int{5, 120, 600}[t.W(3)]
 	}
+	// the scanner's buffer size is a constant of the tree (128 KiB); most runs shrink it so that lines
+	// longer than the buffer, regrows and delimiters on the buffer's last byte happen with small inputs
+	if t.FBool(3, 4) {
+		sc.ScanBuf = []int{1, 2, 3, 5, 8, 16, 17, 32, 64, 100, 256, 4096}[t.F(12)]
+	}
 	// reader plans
 	for i := range sc.Inputs {
 		p := &simrt.ReadPlan{ErrAt: -1}
@@ -262,6 +268,14 @@ func (sc *pipeScenario) buildBatcher(s *simrt.Sim) *batchers.Batcher {
 	return batchers.OpenFilesToChan(names, false, sc.Readers, sc.Batch, sc.Buffer)
 }
 
+// knobs returns the constant overrides of the scenario.
+func (sc *pipeScenario) knobs() map[string]int {
+	if sc.ScanBuf > 0 {
+		return map[string]int{"rare/pkg/extractor/batchers.ReadAheadBufferSize": sc.ScanBuf}
+	}
+	return nil
+}
+
 func (sc *pipeScenario) installPlans(s *simrt.Sim) {
 	for _, in := range sc.Inputs {
 		if s.Opts.Mode == simrt.ModeFree && in.Plan != nil {
@@ -280,6 +294,7 @@ func runPipe(rc *RunCtx, sc *pipeScenario, opts simrt.Opts) *pipeOutcome {
 func runPipeHook(rc *RunCtx, sc *pipeScenario, opts simrt.Opts, hook func()) *pipeOutcome {
 	sc.writeInputs()
 	out := &pipeOutcome{}
+	opts.Knobs = sc.knobs()
 	s := rc.NewSim(opts)
 	sc.installPlans(s)
 	t := rc.Tape
